@@ -10,7 +10,10 @@
 (*   offer   one action of a batch response: (oid, rel, href, headers)     *)
 (*   use     a storage or verify request: must be exactly an offered       *)
 (*           action - right method for the rel, same href, every offered   *)
-(*           header present - and no offer of a response naming an         *)
+(*           header present with the offered value, also where the client  *)
+(*           would have chosen a value of its own (Content-Type of an      *)
+(*           upload, with lfs.contenttype on or off) - and no offer of a   *)
+(*           response naming an                                            *)
 (*           unsupported hash algorithm may ever be used                   *)
 (*   lockreq a lock / unlock / list / verify request with its preconditions*)
 (*           and, for the two listings, its paging: a cursor is one the    *)
